@@ -3,6 +3,7 @@ package main
 import (
 	"fmt"
 	"strings"
+	"time"
 
 	"github.com/uhn/ggql/pkg/ggql"
 )
@@ -37,13 +38,31 @@ func loadDocs(docs []string) (*ggql.Root, error) {
 	return root, nil
 }
 
+var leakedHangs int
+
+// safeParse runs ParseString with recover and a watchdog: the SDL parser can loop forever (D01); the
+// spinning goroutine is abandoned (it cannot be killed) and the call reported as a hang.  After a few
+// abandoned goroutines no further parses are attempted in this process.
 func safeParse(root *ggql.Root, doc string) (err error) {
-	defer func() {
-		if r := recover(); r != nil {
-			err = fmt.Errorf("panic: %v", r)
-		}
+	if leakedHangs >= 6 {
+		return fmt.Errorf("hang: parser watchdog exhausted")
+	}
+	done := make(chan error, 1)
+	go func() {
+		defer func() {
+			if r := recover(); r != nil {
+				done <- fmt.Errorf("panic: %v", r)
+			}
+		}()
+		done <- root.ParseString(doc)
 	}()
-	return root.ParseString(doc)
+	select {
+	case err = <-done:
+		return err
+	case <-time.After(3 * time.Second):
+		leakedHangs++
+		return fmt.Errorf("hang: ParseString did not return within 3 s")
+	}
 }
 
 // sortedIntro: introspection result with every list sorted by a canonical rendering (for arrangements
